@@ -103,6 +103,7 @@ def run(ctx):
     try:
         B = jobtask.Bodies(ctx, "R18.4")
         jobrules.hook_discipline(ctx, B, rule="R18.4")
+        jobrules.callbox_table(ctx, "R18.4")
         sp = ctx.anchor_fn("R18.4", SUP + "::job::state::CommandState::spawn")
         calls = [(strip_generics(c), n) for c, n in thir.calls_in(thir.root(sp)) if strip_generics(c).endswith("TokioCommandWrap::spawn")]
         ok = len(calls) == 1 and pathx.desc(calls[0][1]["a"][0]) == "spawnable"
